@@ -60,7 +60,10 @@ func (db *DB) checkAndCleanFiles() error {
 		keep := true
 		switch fd.Type {
 		case storage.TypeManifest:
-			keep = fd.Num >= db.s.manifestFd.Num
+			// Only the manifest this session writes is live. A manifest with a
+			// higher number is as obsolete as one with a lower number: it was
+			// left behind by a rotation that never made it current.
+			keep = fd.Num == db.s.manifestFd.Num
 		case storage.TypeJournal:
 			if !db.frozenJournalFd.Zero() {
 				keep = fd.Num >= db.frozenJournalFd.Num
